@@ -2,12 +2,13 @@
 # tools/run_benign.sh [dir]  -- apply each behaviour-preserving refactor of /verif/benign/<set>/*.diff to /repo (one at a time),
 # run every quick check, undo, and report any alarm (every alarm here is a false alarm to be investigated)
 D=$(realpath "${1:-/verif/benign}")
-[ -z "$(git -C /repo status --porcelain)" ] || { echo "/repo not clean"; exit 3; }
+R=${ZK_REPO:-/repo}; export ZK_REPO=$R
+[ -z "$(git -C $R status --porcelain)" ] || { echo "$R not clean"; exit 3; }
 bad=0
 for p in $(find "$D" -name '*.diff' | sort); do
-  git -C /repo apply "$p" 2>/dev/null || { echo "SKIP (does not apply) $p"; continue; }
+  git -C $R apply "$p" 2>/dev/null || { echo "SKIP (does not apply) $p"; continue; }
   out=$(/verif/check all 2>&1 | grep -E "^(VIOLATION|  R|  floor|  anchor|  machinery)" | cut -c1-260)
-  git -C /repo checkout -- .
+  git -C $R checkout -- .
   if [ -n "$out" ]; then bad=$((bad+1)); echo "ALARM  $p"; echo "$out" | grep -v "^VIOLATION" | head -6; else echo "silent $p"; fi
 done
 echo "alarms: $bad"
